@@ -146,6 +146,14 @@ func (u *Upstream) Close(ctx context.Context, opts ...UpstreamCloseOption) error
 }
 
 func (u *Upstream) closeWithError(ctx context.Context, causeError error, opts ...UpstreamCloseOption) error {
+	u.mu.RLock()
+	wireConn := u.wireConn
+	u.mu.RUnlock()
+	return u.closeWithErrorOn(wireConn, ctx, causeError, opts...)
+}
+
+// closeWithErrorOn is closeWithError for callers that already hold u.mu (or have read u.wireConn under it).
+func (u *Upstream) closeWithErrorOn(wireConn *wire.ClientConn, ctx context.Context, causeError error, opts ...UpstreamCloseOption) error {
 	defer u.cancel()
 	if u.isClosed() {
 		return nil
@@ -156,7 +164,7 @@ func (u *Upstream) closeWithError(ctx context.Context, causeError error, opts ..
 		v(&opt)
 	}
 
-	resp, err := u.wireConn.SendUpstreamCloseRequest(ctx, &message.UpstreamCloseRequest{
+	resp, err := wireConn.SendUpstreamCloseRequest(ctx, &message.UpstreamCloseRequest{
 		StreamID:            u.ID,
 		TotalDataPoints:     atomic.LoadUint64(&u.totalDataPoints),
 		FinalSequenceNumber: u.sequence.CurrentValue(),
@@ -445,7 +453,7 @@ func (u *Upstream) flush(ctx context.Context) error {
 	}
 
 	if err := u.validateState(); err != nil {
-		u.closeWithError(u.ctx, err)
+		u.closeWithErrorOn(u.wireConn, u.ctx, err)
 		return err
 	}
 
